@@ -737,15 +737,15 @@ func keysOf(m map[string]bool) []string {
 	return out
 }
 
-func expectOne(s *core.Sink, key, pos string, got, want []string, what string) {
+func expectOne(s *core.Sink, key, pos string, got, want []string, what string, props ...string) {
 	g := append([]string(nil), got...)
 	w := append([]string(nil), want...)
 	sort.Strings(g)
 	sort.Strings(w)
 	if strings.Join(g, " ∧ ") == strings.Join(w, " ∧ ") {
-		s.OK(key, pos, what+" under exactly "+strings.Join(w, " ∧ "))
+		s.OK(key, pos, what+" under exactly "+strings.Join(w, " ∧ "), props...)
 	} else {
-		s.Bad(key, pos, fmt.Sprintf("%s is executed under %v, want exactly %v", what, g, w))
+		s.Bad(key, pos, fmt.Sprintf("%s is executed under %v, want exactly %v", what, g, w), props...)
 	}
 }
 
@@ -822,8 +822,27 @@ func init() {
 					s.Check(hasFact(st.f, b, callFact("currentIsInvalid", true)), key, pos, "read only after input.currentIsInvalid() answered true", "read without the invalid-code-point test: the option could change the result for valid input")
 				case "percentEncodeSinglePercentSign":
 					ok := false
-					if st.f.Name() == "percentEncodeInvalidRune" {
-						// every call site lies on the invalid-percent branch
+					directPct := hasFact(st.f, b, func(fa condFact) bool {
+						bo, ok := fa.Cond.(*ssa.BinOp)
+						if !ok || bo.Op != token.EQL || !fa.Val {
+							return false
+						}
+						k, ok := constInt(bo.Y)
+						return ok && k == '%'
+					})
+					// a bool parameter that is true where the option is read: the caller's answer to the invalid-percent test
+					var guardParams []int
+					for _, fa := range Facts(c, st.f).At(b) {
+						if p, isP := fa.Cond.(*ssa.Parameter); isP && fa.Val {
+							for i, q := range st.f.Params {
+								if q == p {
+									guardParams = append(guardParams, i)
+								}
+							}
+						}
+					}
+					if !directPct {
+						// a helper: every call site lies on the invalid-percent branch, or passes the test's answer
 						ok = true
 						sitesN := 0
 						for _, g := range c.P.ModFns {
@@ -832,7 +851,16 @@ func init() {
 									if call, isC := ins.(*ssa.Call); isC && call.Common().StaticCallee() == st.f {
 										sitesN++
 										pctHere := hasFact(g, gb, isPctFact(c))
-										if !hasFact(g, gb, callFact("remainingIsInvalidPercentEncoded", true)) && !pctHere {
+										byArg := false
+										for _, gi := range guardParams {
+											if gi < len(call.Common().Args) {
+												av := call.Common().Args[gi]
+												if truthImplies(av, "remainingIsInvalidPercentEncoded", 0) || truthImpliesFact(c, av, isPctFact(c), 0) {
+													byArg = true
+												}
+											}
+										}
+										if !hasFact(g, gb, callFact("remainingIsInvalidPercentEncoded", true)) && !pctHere && !byArg {
 											// … or the enclosing helper is itself only called with the test's answer for that flag
 											up := holdsUpward(c, g, gb, 2, func(facts []condFact, root func(ssa.Value) ssa.Value) bool {
 												isPct := isPctFact(c)
@@ -861,15 +889,7 @@ func init() {
 						ok = ok && sitesN > 0
 					} else {
 						// PercentEncodeString: under r == '%' and (too short or not two hex digits)
-						pct := hasFact(st.f, b, func(fa condFact) bool {
-							bo, ok := fa.Cond.(*ssa.BinOp)
-							if !ok || bo.Op != token.EQL || !fa.Val {
-								return false
-							}
-							k, ok := constInt(bo.Y)
-							return ok && k == '%'
-						})
-						ok = pct
+						ok = true
 					}
 					s.Check(ok, key, pos, "read only after an invalid-percent-encoding test", "read without the invalid-percent test: the option could change the result for well-formed escapes")
 				case "skipWindowsDriveLetterNormalization":
